@@ -47,6 +47,24 @@ Theorem C08_fetch_all_keeps_complete :
 Proof. exact fetch_all_keeps_complete. Qed.
 Print Assumptions C08_fetch_all_keeps_complete.
 
+(* a sender that cannot supply the parent inventories the sink asks for (pull over the smart server
+   from a stacked source whose revisions live in its own fallback): refused -> nothing changes; and
+   the invariant survives whenever the fetch is refused or needed no parent inventory *)
+Theorem C08_unsupplied_refused_unchanged :
+  forall U c F T fg r out n T',
+  fetch_nr U c F T fg r = (out, n, T') -> out <> FOk -> T' = T.
+Proof. exact fetch_nr_refused_unchanged. Qed.
+Print Assumptions C08_unsupplied_refused_unchanged.
+
+Theorem C08_unsupplied_keeps_complete :
+  forall U c F T fg r out n T', wf_univ U = true ->
+  fetch_nr U c F T fg r = (out, n, T') -> ext c = true -> closedb U (vis_of F T) = true ->
+  local_complete U T ->
+  out <> FOk \/ refill U c T (missing U c fg (vis_of F T) r) = [] ->
+  local_complete U T'.
+Proof. exact fetch_nr_keeps_complete. Qed.
+Print Assumptions C08_unsupplied_keeps_complete.
+
 (* the invariant is what makes the branch readable: every revision of the stacked
    repository can be reconstructed from it plus the fallback *)
 Theorem C08_complete_implies_tip_readable :
